@@ -3,6 +3,7 @@ package limit
 import (
 	"fmt"
 	"sort"
+	"strconv"
 	"strings"
 	"sync"
 	"testing"
@@ -37,6 +38,25 @@ func freshServer(r *vrt.Run) *miniredis.Miniredis {
 	}
 	srv.FlushAll()
 	return srv
+}
+
+// realState renders what Redis really holds (values, remaining TTLs; timestamps stored by
+// the token script as ages), so that the history search never merges two histories whose
+// reference models agree but whose real server state differs.
+func realState(s *miniredis.Miniredis) string {
+	now := vrt.Now().Unix()
+	var parts []string
+	for _, k := range s.Keys() {
+		v, _ := s.Get(k)
+		if strings.HasSuffix(k, ".ts") {
+			if n, err := strconv.ParseInt(v, 10, 64); err == nil {
+				v = fmt.Sprintf("age%d", now-n)
+			}
+		}
+		parts = append(parts, fmt.Sprintf("%s=%s/%v", k, v, s.TTL(k)))
+	}
+	sort.Strings(parts)
+	return strings.Join(parts, ",")
 }
 
 // ---------------------------------------------------------------------------------------
@@ -122,7 +142,7 @@ func (s *plSys) canon() string {
 	if s.align {
 		phase = vrt.Now().Unix() % int64(s.period)
 	}
-	return fmt.Sprintf("ph%d|%v", phase, parts)
+	return fmt.Sprintf("ph%d|%v|real=%s", phase, parts, realState(s.s))
 }
 
 func limSetup() {
@@ -356,7 +376,7 @@ func (s *tlSys) canon() string {
 		}
 		return fmt.Sprintf("%.1f", lvl)
 	}
-	return fmt.Sprintf("redis=%s|rescue=%s|up=%v|mode=%v|sub=%v", f(s.redisB), f(s.rescueB), s.up, s.rescueMode, vrt.Elapsed()%time.Second)
+	return fmt.Sprintf("redis=%s|rescue=%s|up=%v|mode=%v|sub=%v", f(s.redisB), f(s.rescueB), s.up, s.rescueMode, vrt.Elapsed()%time.Second) + "|real=" + realState(s.s)
 }
 
 func TestVerifTokenLimit(t *testing.T) {
